@@ -1246,6 +1246,7 @@ Section Correct.
     ++ set_var (S sp) TInt [IConst (V64 0)]
     ++ (match qk with
         | QExpr => set_var (S (S sp)) TInt (emit g sp h1 q) ++ set_var (S (S (S sp))) TInt [IConst (V64 0)]
+        | QPct => set_var (S (S sp)) TInt (pct_code sp h1 (emit g sp h1 q)) ++ set_var (S (S (S sp))) TInt [IConst (V64 0)]
         | _ => []
         end).
   Lemma emit_for_eq : forall g sp h qk q x lo hi body,
@@ -1829,14 +1830,14 @@ Section Correct.
   Qed.
 
   Lemma for_range_ok : forall qk q x lo hi body,
-    (qk = QExpr -> Ok q) -> Ok lo -> Ok hi -> Ok body -> Ok (EForRange qk q x lo hi body).
+    qk <> QPct -> (qk = QExpr -> Ok q) -> Ok lo -> Ok hi -> Ok body -> Ok (EForRange qk q x lo hi body).
   Proof.
-    intros qk q x lo hi body OkQ OkLo OkHi OkB cg sp h F vars st t Ht HR HF.
+    intros qk q x lo hi body NotPct OkQ OkLo OkHi OkB cg sp h F vars st t Ht HR HF.
     set (g' := (x, ((sp + 5)%nat, TInt)) :: cg). set (sp' := (sp + FOR_IN_FRAME)%nat).
     assert (HT : qk <> QPct /\ (qk = QExpr -> tyof cg sp q = Some TInt) /\ tyof cg sp lo = Some TInt /\
                  tyof cg sp hi = Some TInt /\ (sp + FOR_IN_FRAME <= MAXV)%nat /\ tyof g' sp' body = Some TBool /\ t = TBool).
     { cbn [tyof] in Ht. fold g' sp' in Ht.
-      destruct qk; try discriminate Ht;
+      destruct qk; try (exfalso; apply NotPct; reflexivity);
         repeat match type of Ht with context [match tyof ?a ?b ?c with _ => _ end] => destruct (tyof a b c) as [[|]|] eqn:?; try discriminate Ht end;
         (destruct (Nat.leb sp' (Z.to_nat MAX_VARS)) eqn:Lb; cbn [negb] in Ht; try discriminate Ht);
         apply Nat.leb_le in Lb; injection Ht as <-;
@@ -1949,6 +1950,7 @@ Section Correct.
       unfold loop_init. rewrite <- !app_assoc. fold s0. apply Cn. cbn [app]. apply CHECK. apply CI.
       replace (match qk with
                | QExpr => set_var (S (S sp)) TInt (emit cg sp (deeper h) q) ++ set_var (S (S (S sp))) TInt [IConst (V64 0)]
+               | QPct => set_var (S (S sp)) TInt (pct_code sp (deeper h) (emit cg sp (deeper h) q)) ++ set_var (S (S (S sp))) TInt [IConst (V64 0)]
                | _ => []
                end) with (@nil instr) by (destruct qk; try reflexivity; contradiction).
       exact B'. }
@@ -2354,8 +2356,9 @@ Section Correct.
     - (* EForRange *) cbn [frag1] in Fr.
       apply andb_true_iff in Fr. destruct Fr as [Fr Fr4]. apply andb_true_iff in Fr. destruct Fr as [Fr Fr3].
       apply andb_true_iff in Fr. destruct Fr as [Fr1 Fr2].
-      refine (for_range_ok qk e1 x e2 e3 e4 _ (IHe2 Fr2) (IHe3 Fr3) (IHe4 Fr4) cg sp h F vars st t Ht HR HF).
-      intros ->. exact (IHe1 Fr1).
+      refine (for_range_ok qk e1 x e2 e3 e4 _ _ (IHe2 Fr2) (IHe3 Fr3) (IHe4 Fr4) cg sp h F vars st t Ht HR HF).
+      + intros ->. discriminate Fr1.
+      + intros ->. exact (IHe1 Fr1).
     - (* EWith *) cbn [frag1] in Fr. apply andb_true_iff in Fr. destruct Fr as [Fr1 Fr2]. cbn [tyof] in Ht.
       destruct (tyof cg (S sp) e1) as [td|] eqn:Td; try discriminate.
       destruct (Nat.ltb sp (Z.to_nat MAX_VARS)) eqn:Lt; try discriminate. apply Nat.ltb_lt in Lt.
@@ -2381,30 +2384,6 @@ Section Correct.
   Theorem emit_ok1 : forall e, frag1 e = true -> Ok e.
   Proof. intros e. apply (emit_ok_size (S (esize e))). apply Nat.lt_succ_diag_r. Qed.
 
-  (* [frag1] is the structural part of the fragment predicate [tyof] *)
-  Lemma tyof_frag1 : forall e G sp t, tyof G sp e = Some t -> frag1 e = true.
-  Proof.
-    induction e; intros G sp t H; cbn [tyof] in H; cbn [frag1]; try discriminate H; try reflexivity;
-      try (destruct k as [nb sg be]); try (destruct p as [i|]); try (destruct ak); try (destruct ranged);
-      try (destruct qk); try (destruct set as [|i0 set']); cbn [tyof] in H; cbn [frag1]; try discriminate H; try reflexivity;
-      repeat match type of H with
-             | context [match tyof ?a ?b ?c with _ => _ end] =>
-                 let E := fresh "T" in destruct (tyof a b c) as [[|]|] eqn:E; try discriminate H
-             end;
-      repeat match type of H with
-             | context [if ?c then _ else _] => destruct c eqn:?; cbn [negb] in H; try discriminate H
-             end;
-      repeat match type of H with
-             | context [match tyof ?a ?b ?c with _ => _ end] =>
-                 let E := fresh "T" in destruct (tyof a b c) as [[|]|] eqn:E; try discriminate H
-             end;
-      repeat match goal with
-             | IH : forall G sp t, tyof G sp ?e = Some t -> frag1 ?e = true, T : tyof _ _ ?e = Some _ |- _ =>
-                 rewrite (IH _ _ _ T); clear T
-             end;
-      try reflexivity.
-  Qed.
-
   (* ----------------------------------------------------- whole conditions *)
   (* any state a rule's code can start in: the data's size in the filesize
      global, sign-extended flag words; the contents of the variable area
@@ -2421,21 +2400,22 @@ Section Correct.
      conditions [tyof] types: arithmetic with the guards of shift / division /
      remainder, comparisons, not / n-ary and / or / defined, uintN, $a [at|in],
      #a [in], @a[i], !a[i], external variables, rule references, with,
-     any / all / N of <set>, for <none|any|all|N> x in (lo..hi)), the emitted
+     any / all / N of <set>, for <none|any|all|N> x in (lo..hi); [Emit.frag1]
+     leaves out what is emitted through emit_switch), the emitted
      code, run from any start state, ends normally with exactly the documented
      verdict on top of the stack.  No fuel: the relational semantics only has
      terminating runs (MachineProofs.bstep_exec gives the fuel). *)
   Definition emit_correct_statement : Prop :=
-    forall e st, tyof [] 0 e = Some TBool -> start_ok st ->
+    forall e st, frag1 e = true -> tyof [] 0 e = Some TBool -> start_ok st ->
       exists st', bs (emit_condition e) st (ONormal st') /\
                   s_stack st' = V32 (b2z (holds (env_of []) e)) :: s_stack st.
 
   Theorem emit_correct : emit_correct_statement.
   Proof.
-    intros e st Ht Hs.
+    intros e st Fr Ht Hs.
     assert (HR0 : R [] 0 (env_of []) (set_stack st [])).
     { eapply R_keeps; [apply R_start; exact Hs | apply keeps_stack]. }
-    destruct (emit_ok1 e (tyof_frag1 _ _ _ _ Ht) [] 0%nat h0 F0 [] (set_stack st []) TBool Ht HR0 hspec_h0) as [Tv Hc].
+    destruct (emit_ok1 e Fr [] 0%nat h0 F0 [] (set_stack st []) TBool Ht HR0 hspec_h0) as [Tv Hc].
     pose proof (c_block_catch 0 h0 F0 st (emit [] 0 h0 e) _ Hc) as Blk.
     rewrite (or_false_bool _ Tv) in Blk. destruct Blk as [D _].
     destruct (D ltac:(discriminate)) as [st' [K [S C]]].
@@ -2447,13 +2427,13 @@ Section Correct.
   (* ... hence the executable semantics computes it for every sufficient
      amount of fuel *)
   Corollary run_condition_correct : forall e,
-    tyof [] 0 e = Some TBool ->
+    frag1 e = true -> tyof [] 0 e = Some TBool ->
     exists N, forall fuel, (N <= fuel)%nat ->
       run_condition data pm rules globals fuel e = Some (holds (env_of []) e).
   Proof.
-    intros e Ht.
+    intros e Fr Ht.
     assert (Hs : start_ok (init_state data)) by (split; [reflexivity | intros slot _; apply word_ok_0]).
-    destruct (emit_correct e _ Ht Hs) as [st' [B S]].
+    destruct (emit_correct e _ Fr Ht Hs) as [st' [B S]].
     destruct (bstep_exec host _ _ _ B) as [N HN]. exists N. intros fuel Hf.
     unfold run_condition. rewrite (HN fuel Hf), S. cbn [init_state s_stack].
     destruct (holds (env_of []) e); reflexivity.
@@ -2461,10 +2441,10 @@ Section Correct.
 
   (* the emitted code never traps and never gets stuck *)
   Corollary emit_no_trap : forall e st o,
-    tyof [] 0 e = Some TBool -> start_ok st ->
+    frag1 e = true -> tyof [] 0 e = Some TBool -> start_ok st ->
     bs (emit_condition e) st o -> exists st', o = ONormal st'.
   Proof.
-    intros e st o Ht Hs Ho. destruct (emit_correct e st Ht Hs) as [st' [B _]].
+    intros e st o Fr Ht Hs Ho. destruct (emit_correct e st Fr Ht Hs) as [st' [B _]].
     exists st'. exact (bstep_deterministic host _ _ _ _ Ho B).
   Qed.
 
@@ -2472,14 +2452,14 @@ Section Correct.
      contains when a rule's code starts (left-overs of the rules evaluated
      before, of other loops that used the same slots), the verdict is the same *)
   Corollary vars_written_before_read : forall e st1 st2 o1 o2,
-    tyof [] 0 e = Some TBool -> start_ok st1 -> start_ok st2 ->
+    frag1 e = true -> tyof [] 0 e = Some TBool -> start_ok st1 -> start_ok st2 ->
     s_stack st1 = [] -> s_stack st2 = [] ->
     bs (emit_condition e) st1 o1 -> bs (emit_condition e) st2 o2 ->
     exists a b, o1 = ONormal a /\ o2 = ONormal b /\ s_stack a = s_stack b.
   Proof.
-    intros e st1 st2 o1 o2 Ht H1 H2 S1 S2 B1 B2.
-    destruct (emit_correct e st1 Ht H1) as [a [Ba Sa]].
-    destruct (emit_correct e st2 Ht H2) as [b [Bb Sb]].
+    intros e st1 st2 o1 o2 Fr Ht H1 H2 S1 S2 B1 B2.
+    destruct (emit_correct e st1 Fr Ht H1) as [a [Ba Sa]].
+    destruct (emit_correct e st2 Fr Ht H2) as [b [Bb Sb]].
     exists a, b. split; [exact (bstep_deterministic host _ _ _ _ B1 Ba)|].
     split; [exact (bstep_deterministic host _ _ _ _ B2 Bb)|]. rewrite Sa, Sb, S1, S2. reflexivity.
   Qed.
@@ -2514,7 +2494,7 @@ Example frag1_loop_example :
   let e := EForRange QExpr (EInt 2) 0%nat (EInt 0) (EArith Sub EFilesize (EInt 3)) inner in
   let inverted := EForRange QAll (EInt 0) 0%nat (EInt 5) (EInt 3) (EBool true) in
   let undefined_bound := EForRange QNone (EInt 0) 0%nat (EInt 0) (ERead (IK 1 false false) (EInt 99)) (EBool false) in
-  tyof [] 0 e = Some TBool /\ tyof [] 0 inverted = Some TBool /\ tyof [] 0 undefined_bound = Some TBool /\
+  frag1 e = true /\ tyof [] 0 e = Some TBool /\ tyof [] 0 inverted = Some TBool /\ tyof [] 0 undefined_bound = Some TBool /\
   run_condition [97; 98; 99; 97; 98] (fun _ => []) (fun _ => false) (fun _ => VUndef) 5000 e = Some true /\
   run_condition [97; 98; 99; 97; 98] (fun _ => []) (fun _ => false) (fun _ => VUndef) 5000 inverted = Some false /\
   run_condition [97; 98; 99; 97; 98] (fun _ => []) (fun _ => false) (fun _ => VUndef) 5000 undefined_bound = Some false.
